@@ -66,9 +66,11 @@ def block(it, b):
 
 
 def venv(it, v):
-    return "(mkVE %d %d %d %d %s %s %d %s %s %s)" % (
+    np = v.get("next_params")
+    return "(mkVE %d %d %d %d %s %s %d %s %d %d %s %s %s %s)" % (
         v["genesis_ts"], v["block_time"], v["now"], v["max_payload"], cbool(v["gen_lookup_ok"]), clist(v["generators"], it.b),
-        v["node_mhp"], cbool(v["contradicting"]), cbool(v["agg_ok"]), cbool(v["sig_ok"]))
+        v["node_mhp"], cbool(v["contradicting"]), v["mh_precommit"], v["mh_cert"], "None" if np is None else "(Some %d)" % np,
+        cbool(v["agg_lookup_ok"]), cbool(v["agg_bls_ok"]), cbool(v["sig_ok"]))
 
 
 def xenv(it, x):
@@ -97,21 +99,22 @@ def events(it, evs):
 def impl(it, r):
     i = r["impl"]
     rules = CLASS_RULES.get(i["class"], [98])
-    return "(mkIO %s %s %s %s %d %s)" % (clist(rules), cbool(i["db_same"]), events(it, i["events"]), it.b(i["tip_after"]),
-                                         i["fin_after"], it.n(i["cs_after"]))
+    return "(mkIO %s %s %s %s %d %s %s %d %d)" % (clist(rules), cbool(i["db_same"]), events(it, i["events"]), it.b(i["tip_after"]),
+                                                  i["fin_after"], it.n(i["cs_after"]), it.b(i["app_after"]), i["abi_commits"],
+                                                  i["abi_reverts"])
 
 
 def pv_term(r):
     it = Intern()
-    return "(mkPV %s %d %s %s (mkPE %s %s) %s %s %s)" % (
-        header(it, r["tip"]), r["fin"], it.n(r["cs"]), block(it, r["block"]), it.b(r["pe_txroot"]), it.b(r["pe_assetroot"]),
+    return "(mkPV %s %d %s %s %s (mkPE %s %s) %s %s %s)" % (
+        header(it, r["tip"]), r["fin"], it.n(r["cs"]), it.b(r["app"]), block(it, r["block"]), it.b(r["pe_txroot"]), it.b(r["pe_assetroot"]),
         venv(it, r["ve"]), xenv(it, r["xe"]), impl(it, r))
 
 
 def tb_term(r):
     it = Intern()
-    return "(mkTB %s %s %d %s %s (mkPE %s %s) %s %s %s %s %s %s)" % (
-        block(it, r["prevblock"]), block(it, r["old"]), r["fin"], it.n(r["cs"]), block(it, r["block"]), it.b(r["pe_txroot"]),
+    return "(mkTB %s %s %d %s %s %s (mkPE %s %s) %s %s %s %s %s %s)" % (
+        block(it, r["prevblock"]), block(it, r["old"]), r["fin"], it.n(r["cs"]), it.b(r["app"]), block(it, r["block"]), it.b(r["pe_txroot"]),
         it.b(r["pe_assetroot"]), venv(it, r["ve"]), xenv(it, r["xe"]), it.n(r["del_cs"]), venv(it, r["old_ve"]),
         xenv(it, r["old_xe"]), impl(it, r))
 
@@ -146,10 +149,13 @@ def evaluate(ck, recs):
                 accepted = r["impl"]["class"] == "ok"
                 if spec_bad:
                     key = "c03:%s:%s:%s" % (r["path"].split("+")[0], "accepted-invalid" if accepted else "rejected-or-changed", r["alt"])
-                    what = ("%s: alteration '%s' (%s): implementation %s, observables db_same=%s events=%s — violates the rule-list oracle"
+                    what = ("%s: alteration '%s' (%s): implementation %s, observables db_same=%s events=%s ABI commits=%d reverts=%d "
+                            "application root changed=%s — violates the rule-list oracle (accept iff every rule holds; a rejected "
+                            "block leaves no trace, not even a committed application state)"
                             % (r["path"], r["alt"], "re-signed" if r["resigned"] else "not re-signed",
                                "ACCEPTED the block" if accepted else "rejected with class " + r["impl"]["class"],
-                               r["impl"]["db_same"], json.dumps(r["impl"]["events"])))
+                               r["impl"]["db_same"], json.dumps(r["impl"]["events"]), r["impl"]["abi_commits"],
+                               r["impl"]["abi_reverts"], r["impl"]["app_after"] != r["app"]))
                 else:
                     key = "c03:pv:model:%s" % r["alt"]
                     what = ("%s: alteration '%s': implementation (class %s, err %s) differs from the proved model"
@@ -164,7 +170,7 @@ def run(ck):
     binp = ck.go_build("c03")
     if not binp:
         return
-    args = ["-worlds", "8", "-points", "2"] if ck.tier == "quick" else ["-worlds", "60", "-points", "3"]
+    args = ["-worlds", "9", "-points", "2"] if ck.tier == "quick" else ["-worlds", "60", "-points", "3"]
     recs = ck.run_harness(binp, args)
     if recs is None:
         return
@@ -200,6 +206,21 @@ def run(ck):
     ck.extra["traces_validated_against_impl"] = len(recs)
     ck.extra["corpus_cases"] = len(corpus)
     ck.extra["classes"] = sorted(set(r["impl"]["class"] for r in recs))
+    aggc = [r for r in recs if r["alt"].startswith("aggregateCommit: genuine")]
+    ck.extra["genuine_aggregate_commit_cases"] = {"accepted": sum(1 for r in aggc if r["impl"]["class"] == "ok"),
+                                                  "rejected": sum(1 for r in aggc if r["impl"]["class"] != "ok"),
+                                                  "at_next_params_bound": sum(1 for r in aggc if "next BFT parameters" in r["alt"])}
+    ck.extra["parameter_changing_successors"] = sum(1 for r in recs if r["alt"].startswith("none") and r["xe"]["params_changed"])
+    for name, ok in (("a genuine aggregate commit on each side of the next-BFT-parameters bound",
+                      any("next BFT parameters-1" in r["alt"] and r["impl"]["class"] == "ok" for r in aggc)
+                      and any("exactly the height of the next BFT parameters" in r["alt"] for r in aggc)),
+                     ("a valid successor that changes the BFT parameters, with the old validatorsHash as an alteration",
+                      any(r["alt"] == "validatorsHash of the parameters before the change" for r in recs))):
+        ck.obligations += 1
+        if ok:
+            ck.discharged += 1
+        else:
+            ck.fail_obligation("generator:" + name, "the scenario generator did not produce " + name)
     ck.assume += ["Ed25519/BLS verification, Merkle roots, liskbft heights/contradiction verdict and verifyAggregateCommit are inputs "
                   "of the model, computed by the harness from the same libraries outside the code path under test",
                   "the wall clock stays in one slot during a case (cases where it does not are re-run)"]
@@ -221,7 +242,7 @@ def replay(ck, path):
     ck.seed = doc.get("seed", ck.seed)
     binp = ck.go_build("c03")
     if binp:
-        recs = ck.run_harness(binp, ["-worlds", "8", "-points", "2"], out_name="replay.jsonl")
+        recs = ck.run_harness(binp, ["-worlds", "9", "-points", "2"], out_name="replay.jsonl")
         if recs is not None:
             same = [r for r in recs if r["alt"] == case.get("alt") and r["resigned"] == case.get("resigned")]
             print("re-executed %d cases of this alteration on the current tree" % len(same))
